@@ -141,11 +141,15 @@ type Server struct {
 	faults  []*Fault
 	pauses  []*Pause
 	// JournalOn can be switched off for throughput (C20 soak).
-	journalOn bool
-	bufReuse  bool
+	journalOn   bool
+	autoIncStep int64
+	bufReuse    bool
 }
 
 // SetBufferReuse switches the buffer-reuse mode of result sets on or off.
+// SetAutoIncStep sets auto_increment_increment (generated keys are 1 + n*step).
+func (s *Server) SetAutoIncStep(n int64) { s.mu.Lock(); s.autoIncStep = n; s.mu.Unlock() }
+
 func (s *Server) SetBufferReuse(on bool) { s.mu.Lock(); s.bufReuse = on; s.mu.Unlock() }
 func (s *Server) bufferReuse() bool      { s.mu.Lock(); defer s.mu.Unlock(); return s.bufReuse }
 
